@@ -462,7 +462,7 @@ RULE = ('sequences over the ManageSieve command set with script names incl. UTF-
 def run(ctx):
     ctx.rep.rule = RULE
     ctx.rep.assumptions = ['the sieve compiler (CHECKSCRIPT) is an oracle of the model: the harness asks the same compiler',
-                           'dict backend FilterSet; maildir has no script store']
+                           'the Lean Sieve model is tied to the dict backend FilterSet; the maildir backend keeps one script per user (SingleFilterSet) and is judged by the acknowledged-map monitor of c19md only']
     ex = [t for t in itertools.product(KINDS, repeat=2)]
     ex += [('auth',) + t for t in itertools.product(KINDS, repeat=2)]
     if not ctx.quick:
@@ -471,6 +471,8 @@ def run(ctx):
     chunks = [ex[k::nw] for k in range(nw)]
     ctx.rep.extra['exhaustive'] = f'{len(ex)} command-kind sequences enumerated completely'
     ctx.pmap(worker, [(ctx.seed * 1000 + 900 + k, ctx.budget(20, 400), chunks[k]) for k in range(nw)])
+    from . import c19md
+    ctx.pmap(c19md.worker, [(ctx.seed * 1000 + 950 + k, ctx.budget(6, 120)) for k in range(nw)])
 
 
 def replay(case):
